@@ -54,6 +54,7 @@ NumFmtOk(f, n) == CASE f = "n1" -> n \in NumGE0
 PrimM3(v, p) ==
   CASE p = "string"  -> B3(v.k = "str")
     [] p = "number"  -> B3(v.k = "num")
+    [] p = "numberkey" -> IF v.k = "num" THEN "X" ELSE "F"     \* the number part of keyof { [k: string]: T } (contested)
     [] p = "boolean" -> B3(v.k = "bool")
     [] p \in {"null", "undefined", "void"} -> B3(IsNullish(v))
     [] p \in {"any", "unknown"} -> "T"
